@@ -15,10 +15,13 @@ pub fn last_panic_loc() -> String {
 mod ops;
 mod opts;
 mod tree;
+mod ops_cli;
 // component op modules: add `mod ops_<name>;` here and its dispatch function to COMPONENTS
 // (signature: fn(op: &str, args: &[String]) -> Option<String>; None = not mine)
 
-pub const COMPONENTS: &[fn(&str, &[String]) -> Option<String>] = &[];
+pub const COMPONENTS: &[fn(&str, &[String]) -> Option<String>] = &[
+    ops_cli::dispatch,
+];
 
 #[allow(dead_code)]
 pub fn unhex(s: &str) -> Vec<u8> {
